@@ -255,6 +255,11 @@ func (r *runner) run(ops []Op, conns int, st *Stats, live *gen.G, gen1 func() (O
 				}
 			}
 		}
+		if strings.HasPrefix(ans, "ambig") {
+			// a deadline fell inside (or within the known uncertainty of) this step and more than one
+			// outcome is consistent with it: the rest of the sequence proves nothing either way
+			return nil, done
+		}
 		if strings.HasPrefix(ans, "DIFF") || strings.HasPrefix(ans, "bad-op") {
 			d := ans
 			if res.p != "" {
